@@ -26,11 +26,23 @@ Section Canon.
 
   Definition toks_eqb (a b : list string) : bool := list_eqb String.eqb a b.
 
+  Definition is_some {A} (o : option A) : bool := match o with Some _ => true | None => false end.
+
+  (* a group that writes nothing: a token the converter does not read (VOL, TMP,
+     ... and their values, which the loop takes for keywords of their own) *)
+  Definition kws_empty (d : kws) : bool :=
+    match k_impl d with [] => true | _ => false end
+    && negb (is_some (k_fb d)) && negb (is_some (k_fu d)) && negb (is_some (k_fp d))
+    && negb (is_some (k_lat d)) && negb (is_some (k_trcl d)) && negb (is_some (k_u d))
+    && negb (is_some (k_rho d)) && negb (is_some (k_mat d)).
+
   (* the groups parse_keywords reads, one per iteration of its loop.  Checked
-     while cutting: the keyword is not a number, the group read on its own
-     gives the same remainder (EUnsupported otherwise: e.g. "VOL=3", whose value
-     the loop reads as a keyword of its own) *)
-  Fixpoint groups_from (fuel : nat) (e : env) (toks : list string) : res (list group) :=
+     while cutting: a group that writes something starts with a keyword that is
+     not a number and, read on its own, gives the same remainder; a number may
+     only follow a group that writes nothing (the value of an unread keyword).
+     EUnsupported otherwise (e.g. "U=3 7"). *)
+  Fixpoint groups_from (fuel : nat) (e : env) (prev_empty : bool) (toks : list string)
+    : res (list group) :=
     match toks with
     | [] => Ok []
     | elt :: rest =>
@@ -38,18 +50,21 @@ Section Canon.
         | O => Err EFuel
         | S f =>
             step SC e elt rest >>= fun '(d, rest') =>
-            let used := firstn (List.length rest - List.length rest') rest in
-            if negb (numeric_start elt) && toks_eqb (used ++ rest') rest
-               && match step SC e elt used with Ok (_, []) => true | _ => false end
-            then groups_from f e rest' >>= fun gs => Ok ((elt :: used, d) :: gs)
-            else Err EUnsupported
+            if kws_empty d && toks_eqb rest' rest then
+              if negb (numeric_start elt) || prev_empty
+              then groups_from f e true rest' >>= fun gs => Ok (([elt], d) :: gs)
+              else Err EUnsupported
+            else
+              let used := firstn (List.length rest - List.length rest') rest in
+              if negb (numeric_start elt) && toks_eqb (used ++ rest') rest
+                 && match step SC e elt used with Ok (_, []) => true | _ => false end
+              then groups_from f e false rest' >>= fun gs => Ok ((elt :: used, d) :: gs)
+              else Err EUnsupported
         end
     end.
 
   Definition groups (e : env) (toks : list string) : res (list group) :=
-    groups_from (List.length toks) e toks.
-
-  Definition is_some {A} (o : option A) : bool := match o with Some _ => true | None => false end.
+    groups_from (List.length toks) e false toks.
 
   (* the last group that writes the entry selected by [sel] *)
   Definition last_with (sel : kws -> bool) (gs : list group) : option group :=
